@@ -167,6 +167,9 @@ fn userinfo() -> BoxedStrategy<(Option<String>, Vec<String>)> {
         4 => (marker("uZ9q"), marker("pW7k"), piece.clone()).prop_map(|(u, p, x)| (Some(format!("{u}:{x}{p}")), vec![u, p])),
         1 => (marker("uZ9q"), marker("pW7k"), marker("pW7k")).prop_map(|(u, p, p2)| (Some(format!("{u}:{p}:{p2}")), vec![u, p, p2])),
         1 => (marker("uZ9q"), marker("pW7k")).prop_map(|(u, p)| (Some(format!("{u}%40x:{p}%3A")), vec![u, p])),
+        // a literal '@' inside the user-info (e-mail address as user, '@' in the password): the LAST '@' delimits
+        1 => (marker("uZ9q"), marker("pW7k"), marker("pW7k")).prop_map(|(u, p, p2)| (Some(format!("{u}:{p}@{p2}")), vec![u, p, p2])),
+        1 => (marker("uZ9q"), marker("uZ9q"), marker("pW7k")).prop_map(|(u, d, p)| (Some(format!("{u}@{d}.example:{p}")), vec![u, d, p])),
     ]
     .boxed()
 }
